@@ -44,6 +44,13 @@ func (rt *Transfer) deleteFiles(fileList []*File) error {
 			if findInFileList(fileList, path) {
 				return nil
 			}
+			if rt.Protected != nil && path != "." && rt.Protected(path) {
+				// excluded by the user's filter rules: not extraneous
+				if info.IsDir() {
+					return fs.SkipDir
+				}
+				return nil
+			}
 			if rt.Opts.Verbose {
 				rt.Logger.Printf("  deleting %s", path)
 			}
